@@ -148,9 +148,12 @@ impl Project for FileBackedProject {
     }
 
     fn semantic(&mut self) -> Result<(), Vec<Diagnostic>> {
-        let library_results: Vec<_> = self
-            .sources
-            .iter_mut()
+        // Analyze the sources in a defined order (by file identifier) so that
+        // the result does not depend on the iteration order of the hash map
+        let mut sources: Vec<_> = self.sources.iter_mut().collect();
+        sources.sort_by_key(|source| source.0.to_string());
+        let library_results: Vec<_> = sources
+            .into_iter()
             .map(|source| source.1.library())
             .collect();
 
